@@ -688,6 +688,8 @@ def coq_op(t):
             return "%s %s %s" % ("MDelRow" if name == "delrow" else "MDelCol", n(a[0]), n(a[1]))
         if name in ("getrow", "getcol"):
             return "%s %s %s %s" % ("MGetRow" if name == "getrow" else "MGetCol", n(a[0]), n(a[1]), n(a[2]))
+        if name in ("sort", "rsort"):
+            return "MSort %s %s %s" % ("T" if name == "rsort" else "F", n(a[0]), n(a[1]))
     return None
 
 
